@@ -223,21 +223,21 @@ variable {K : Type} [Field K] [LinearOrder K] [IsStrictOrderedRing K]
 end Gen
 
 /-- evaluation at K = ℚ for the correspondence driver -/
-def Gen.dispatchCurv (tbl : FnTable) (name : String) (args : List ℚ) : Option (List ℚ) :=
-  match name, args with
-  | "cubic_tangentAtTime", [a0, a1, a2, a3, a4, a5, a6, a7, a8] => some (Gen.cubic_tangentAtTime (tbl.sqrt) a0 a1 a2 a3 a4 a5 a6 a7 a8)
-  | "quad_tangentAtTime", [a0, a1, a2, a3, a4, a5, a6] => some (Gen.quad_tangentAtTime (tbl.sqrt) a0 a1 a2 a3 a4 a5 a6)
-  | "cubic_normalAtTime", [a0, a1, a2, a3, a4, a5, a6, a7, a8] => some (Gen.cubic_normalAtTime (tbl.sqrt) a0 a1 a2 a3 a4 a5 a6 a7 a8)
-  | "quad_normalAtTime", [a0, a1, a2, a3, a4, a5, a6] => some (Gen.quad_normalAtTime (tbl.sqrt) a0 a1 a2 a3 a4 a5 a6)
-  | "cubic_curvatureAtTime", [a0, a1, a2, a3, a4, a5, a6, a7, a8] => some (Gen.cubic_curvatureAtTime (tbl.rpow) a0 a1 a2 a3 a4 a5 a6 a7 a8)
-  | "quad_curvatureAtTime", [a0, a1, a2, a3, a4, a5, a6] => some (Gen.quad_curvatureAtTime (tbl.rpow) a0 a1 a2 a3 a4 a5 a6)
-  | "line_tangentAtTime", [a0, a1, a2, a3, a4] => some (Gen.line_tangentAtTime (tbl.sqrt) (tbl.cos) (tbl.sin) (tbl.atan2) a0 a1 a2 a3 a4)
-  | "line_normalAtTime", [a0, a1, a2, a3, a4] => some (Gen.line_normalAtTime (tbl.pi) (tbl.sqrt) (tbl.cos) (tbl.sin) (tbl.atan2) a0 a1 a2 a3 a4)
-  | "line_curvatureAtTime", [a0, a1, a2, a3, a4] => some (Gen.line_curvatureAtTime a0 a1 a2 a3 a4)
-  | "cubic_startAngle", [a0, a1, a2, a3, a4, a5, a6, a7] => some (Gen.cubic_startAngle (tbl.atan2) a0 a1 a2 a3 a4 a5 a6 a7)
-  | "cubic_endAngle", [a0, a1, a2, a3, a4, a5, a6, a7] => some (Gen.cubic_endAngle (tbl.atan2) a0 a1 a2 a3 a4 a5 a6 a7)
-  | "quad_startAngle", [a0, a1, a2, a3, a4, a5] => some (Gen.quad_startAngle (tbl.atan2) a0 a1 a2 a3 a4 a5)
-  | "quad_endAngle", [a0, a1, a2, a3, a4, a5] => some (Gen.quad_endAngle (tbl.atan2) a0 a1 a2 a3 a4 a5)
-  | "line_startAngle", [a0, a1, a2, a3] => some (Gen.line_startAngle (tbl.atan2) a0 a1 a2 a3)
-  | "line_endAngle", [a0, a1, a2, a3] => some (Gen.line_endAngle (tbl.atan2) a0 a1 a2 a3)
-  | _, _ => none
+def Gen.dispatchCurv (tbl : FnTable) (name : String) (a : List ℚ) : Option (List ℚ) :=
+  match name with
+  | "cubic_tangentAtTime" => if a.length = 9 then some (Gen.cubic_tangentAtTime (tbl.sqrt) (a.getD 0 0) (a.getD 1 0) (a.getD 2 0) (a.getD 3 0) (a.getD 4 0) (a.getD 5 0) (a.getD 6 0) (a.getD 7 0) (a.getD 8 0)) else none
+  | "quad_tangentAtTime" => if a.length = 7 then some (Gen.quad_tangentAtTime (tbl.sqrt) (a.getD 0 0) (a.getD 1 0) (a.getD 2 0) (a.getD 3 0) (a.getD 4 0) (a.getD 5 0) (a.getD 6 0)) else none
+  | "cubic_normalAtTime" => if a.length = 9 then some (Gen.cubic_normalAtTime (tbl.sqrt) (a.getD 0 0) (a.getD 1 0) (a.getD 2 0) (a.getD 3 0) (a.getD 4 0) (a.getD 5 0) (a.getD 6 0) (a.getD 7 0) (a.getD 8 0)) else none
+  | "quad_normalAtTime" => if a.length = 7 then some (Gen.quad_normalAtTime (tbl.sqrt) (a.getD 0 0) (a.getD 1 0) (a.getD 2 0) (a.getD 3 0) (a.getD 4 0) (a.getD 5 0) (a.getD 6 0)) else none
+  | "cubic_curvatureAtTime" => if a.length = 9 then some (Gen.cubic_curvatureAtTime (tbl.rpow) (a.getD 0 0) (a.getD 1 0) (a.getD 2 0) (a.getD 3 0) (a.getD 4 0) (a.getD 5 0) (a.getD 6 0) (a.getD 7 0) (a.getD 8 0)) else none
+  | "quad_curvatureAtTime" => if a.length = 7 then some (Gen.quad_curvatureAtTime (tbl.rpow) (a.getD 0 0) (a.getD 1 0) (a.getD 2 0) (a.getD 3 0) (a.getD 4 0) (a.getD 5 0) (a.getD 6 0)) else none
+  | "line_tangentAtTime" => if a.length = 5 then some (Gen.line_tangentAtTime (tbl.sqrt) (tbl.cos) (tbl.sin) (tbl.atan2) (a.getD 0 0) (a.getD 1 0) (a.getD 2 0) (a.getD 3 0) (a.getD 4 0)) else none
+  | "line_normalAtTime" => if a.length = 5 then some (Gen.line_normalAtTime (tbl.pi) (tbl.sqrt) (tbl.cos) (tbl.sin) (tbl.atan2) (a.getD 0 0) (a.getD 1 0) (a.getD 2 0) (a.getD 3 0) (a.getD 4 0)) else none
+  | "line_curvatureAtTime" => if a.length = 5 then some (Gen.line_curvatureAtTime (a.getD 0 0) (a.getD 1 0) (a.getD 2 0) (a.getD 3 0) (a.getD 4 0)) else none
+  | "cubic_startAngle" => if a.length = 8 then some (Gen.cubic_startAngle (tbl.atan2) (a.getD 0 0) (a.getD 1 0) (a.getD 2 0) (a.getD 3 0) (a.getD 4 0) (a.getD 5 0) (a.getD 6 0) (a.getD 7 0)) else none
+  | "cubic_endAngle" => if a.length = 8 then some (Gen.cubic_endAngle (tbl.atan2) (a.getD 0 0) (a.getD 1 0) (a.getD 2 0) (a.getD 3 0) (a.getD 4 0) (a.getD 5 0) (a.getD 6 0) (a.getD 7 0)) else none
+  | "quad_startAngle" => if a.length = 6 then some (Gen.quad_startAngle (tbl.atan2) (a.getD 0 0) (a.getD 1 0) (a.getD 2 0) (a.getD 3 0) (a.getD 4 0) (a.getD 5 0)) else none
+  | "quad_endAngle" => if a.length = 6 then some (Gen.quad_endAngle (tbl.atan2) (a.getD 0 0) (a.getD 1 0) (a.getD 2 0) (a.getD 3 0) (a.getD 4 0) (a.getD 5 0)) else none
+  | "line_startAngle" => if a.length = 4 then some (Gen.line_startAngle (tbl.atan2) (a.getD 0 0) (a.getD 1 0) (a.getD 2 0) (a.getD 3 0)) else none
+  | "line_endAngle" => if a.length = 4 then some (Gen.line_endAngle (tbl.atan2) (a.getD 0 0) (a.getD 1 0) (a.getD 2 0) (a.getD 3 0)) else none
+  | _ => none
